@@ -122,6 +122,29 @@ def run(chk):
         for opn in ("ADD", "SUB"):
             k += 1
             opjobs.append(SessionJob("n%d:%s" % (k, opn), bytes([O[opn]]), [G.scriptnum(a_), G.scriptnum(b2 if opn == "ADD" else -b2)], [], "BASE", cmds=["steps"], cmp=D.CMP_C01))
+    # the counter of OP_CHECKSIGADD is a number like any other operand, whether or not the signature is empty (tapscript only)
+    for b_ in strings:
+        if len(b_) != 1 or b_[0] in (0, 1, 2, 0x7f, 0x80, 0x81, 0xff):
+            for fl in ([], ["MINIMALDATA"]):
+                for key in (b"\x07" * 32, b"\x07" * 33):
+                    k += 1
+                    opjobs.append(SessionJob("n%d:CHECKSIGADD" % k, bytes([O["CHECKSIGADD"]]), [b"", b_, key], fl, "TAPSCRIPT", cmds=["steps"], cmp=D.CMP_C01, weight=500))
+    # lock-time operands of five bytes against transaction lock times beyond 2^31 (the comparison is on the full values)
+    import gen_spend, btc
+    for lt in (2 ** 31 - 2, 2 ** 31 - 1, 2 ** 31, 2500000000, 2 ** 32 - 1):
+        for opv in (2 ** 31 - 2, 2 ** 31 - 1, 2 ** 31, 2 ** 31 + 1, 2499999999, 2500000000, 2500000001, 3000000000, 2 ** 32 - 1, 2 ** 32):
+            for typ in ("p2wsh", "bare"):
+                k += 1
+                ws = G.push(G.scriptnum(opv)) + bytes([O["CHECKLOCKTIMEVERIFY"], O["DROP"], O["1"]])
+                c = gen_spend.SpendCase(chk.rng, "p2wsh", "valid", 1, 0, 0)
+                c.tx.locktime = lt; c.tx.vin[0].sequence = 0
+                if typ == "p2wsh":
+                    c.funding.vout[0] = btc.TxOut(c.funding.vout[0].amount, btc.p2wsh(ws)[0]); c.tx.witness[0] = [ws]
+                else:
+                    c.funding.vout[0] = btc.TxOut(c.funding.vout[0].amount, ws); c.tx.witness = [[]]
+                c.tx.vin[0].prev_txid = c.funding.txid()
+                opjobs.append(SessionJob("n%d:cltv:%s:%d:%d" % (k, typ, lt, opv), b"", [], D.STANDARD, "BASE", cmds=["steps"], cmp=gen_spend.CMP_SPEND, auto=True,
+                                         txctx={"tx": c.tx.hex(), "txin": c.funding.hex(), "select": -1}))
     # the minimal-encoding requirement holds at every point of a session: after an exec that failed or threw, after one that went through,
     # after going back; and for the operations of the exec itself
     for b_ in (b"\x00", b"\x80", b"\x01\x00", b"\x01\x80", b"\x00\x00\x00", b"\x05\x00\x00\x00", b"\x05"):
